@@ -443,3 +443,38 @@ Proof.
   destruct (alloc_pools (a_pools a)) as [[f ps]|]; [reflexivity|].
   cbv iota beta. unfold G. astep. reflexivity.
 Qed.
+
+(** FreeFrame / AllocFrame with [free_res] / [alloc_res] unfolded (the form stated in Props/C03_trans.v) *)
+Theorem freeFrame_is_translation_explicit mtx a tr f fuel :
+  N.of_nat (length (a_pools a)) < 2 ^ 63 -> (length (a_pools a) < fuel)%nat ->
+  go_pmm_BitmapAllocator_FreeFrame fuel (to_ga mtx a tr) f =
+  match bitmap_free a f with
+  | (_, FreePanic) => GPanic
+  | (a', r) =>
+      GOk (to_ga mtx a' (GEv "Release" [] :: GEv "Acquire" [] :: tr),
+           match r with
+           | FreeNotManaged => Some "errBitmapAllocFrameNotManaged"%string
+           | FreeDoubleFree => Some "errBitmapAllocDoubleFree"%string
+           | _ => None
+           end)
+  end.
+Proof.
+  intros H1 H2. rewrite (freeFrame_is_translation mtx a tr f fuel H1 H2).
+  unfold free_res. destruct (bitmap_free a f) as [a' r]. destruct r; reflexivity.
+Qed.
+
+Theorem allocFrame_is_translation_explicit mtx a tr fuel :
+  N.of_nat (length (a_pools a)) < 2 ^ 63 ->
+  (forall p, In p (a_pools a) -> N.of_nat (length (p_bitmap p)) < 2 ^ 63 /\ (length (p_bitmap p) < fuel)%nat) ->
+  (length (a_pools a) < fuel)%nat -> (64 < fuel)%nat ->
+  go_pmm_BitmapAllocator_AllocFrame fuel (to_ga mtx a tr) =
+  match bitmap_alloc a with
+  | (a', Some f) => GOk (to_ga mtx a' (GEv "Release" [] :: GEv "Acquire" [] :: tr), (f, None))
+  | (a', None) =>
+      GOk (to_ga mtx a' (GEv "Release" [] :: GEv "Acquire" [] :: tr),
+           (mm_InvalidFrame, Some "errBitmapAllocOutOfMemory"%string))
+  end.
+Proof.
+  intros H1 H2 H3 H4. rewrite (allocFrame_is_translation mtx a tr fuel H1 H2 H3 H4).
+  unfold alloc_res. destruct (bitmap_alloc a) as [a' [f|]]; reflexivity.
+Qed.
